@@ -191,6 +191,7 @@ package openid
 //@   assert @call(IssueExplicitIDToken)#1 [C14.at-hash-binds-access-token] claims.Subject != "" && claims.AccessTokenHash == token_hash(implements(requester.GetSession(), Session) ? hash_bits(cast(requester.GetSession(), Session).IDTokenHeaders()) : 256, responder.GetAccessToken())
 //@   assert @call(GetOpenIDConnectSession)#1 [C20.no-complete-code-as-storage-key] sigkey($arg2)
 //@   assert @call(DeleteOpenIDConnectSession)#1 [C20.no-complete-code-as-storage-key] sigkey($arg2)
+//@   ensures [C18.oidc-code-populate-fault-refuses] faults != old(faults) ==> err != nil
 
 // Refresh: the handler resets expiry, jti, at_hash and c_hash; the populate step binds at_hash to the new access token, leaves
 // c_hash empty and draws a new jti.
@@ -219,6 +220,7 @@ package openid
 //@   assert @call(IssueExplicitIDToken)#1 [C14.at-hash-binds-access-token] claims.Subject != "" && claims.AccessTokenHash == token_hash(implements(requester.GetSession(), Session) ? hash_bits(cast(requester.GetSession(), Session).IDTokenHeaders()) : 256, responder.GetAccessToken())
 //@   assert @call(DeleteOpenIDConnectSession)#1 [C14.oidc-session-consumed] $arg2 == signature
 //@   assert @call(DeleteOpenIDConnectSession)#1 [C20.no-complete-code-as-storage-key] $arg2 != deviceCode || deviceCode == signature
+//@   ensures [C18.oidc-device-populate-fault-refuses] faults != old(faults) ==> err != nil
 //@ func (*OpenIDConnectExplicitHandler).CanHandleTokenEndpointRequest
 //@   pure
 //@   ensures result == requester.GetGrantTypes().ExactOne("authorization_code")
